@@ -2,6 +2,7 @@ import Rare.Proofs.C10
 import Rare.Proofs.C10Tree
 import Rare.Proofs.C10State
 import Rare.Proofs.C10Src
+import Rare.Proofs.C10Fold
 import Rare.Gen.C10
 /-!
 # C10 — optimisation and user-defined functions never change an expression's value
@@ -339,6 +340,47 @@ example : Levels ⟨fun _ => [1], fun _ => [2]⟩ [[Comp.match_ 1, Comp.match_ 0
 example : LayoutOk true [([], .bare "f".toList), ([' '], .braced "0".toList)] ∧ allSpace [] = true :=
   ⟨⟨rfl, Or.inl rfl, (by decide : bare "f".toList = true), by decide, Or.inr (by decide),
     Inner.char '0' _ (by decide) Inner.nil, trivial⟩, rfl⟩
+
+/-! ## Folding a constant array of dates behind one cache stage (round 4b) -/
+
+/-- FULL STATEMENT (not provable for the real library, see the counterexample): for every constant array `vals`,
+    `{@map <vals> "{time {0}}"}` (or a funcs-file function `ts {time {0}}` called on constants) folded by the
+    optimiser answers every history like the unoptimised stage.
+
+    **Proved for every library that never parses, by a remembered layout, a value whose layout it cannot detect**
+    (`hlib`): any constant values (empty, undetectable, of different layouts), every history of evaluations on input
+    and static analyses in any order – the folded literal is what every evaluation on input computes.  Without
+    `hlib` no ∀-statement holds: the unoptimised stage itself answers a CONSTANT differently on the first and on later
+    lines. -/
+theorem time_cache_fold_const_array_partial {L : Type} (lib : TimeLib L)
+    (hlib : ∀ s l, lib.detect s = none → lib.parse l s = none) (vals : List Bytes) (evs : List Ev) :
+    runEvents (optimizeS (constStage lib vals) TimeSt.fresh) ((constStage lib vals).probeStep TimeSt.fresh).2 evs
+      = runEvents (constStage lib vals) TimeSt.fresh evs :=
+  constStage_optimize lib hlib vals evs
+
+/-- `hlib` is satisfiable on a library that detects and parses (the toy library: layout = length), with an
+    undetectable-looking mix of values. -/
+example : (∀ s l, toyLib.detect s = none → toyLib.parse l s = none) ∧
+    runEvents (constStage toyLib [[57, 57], [], [55]]) TimeSt.fresh [.real (toyCtx [1]), .probe, .real (toyCtx [2])]
+      = [.ok ([57, 57] ++ ErrorParsing ++ ErrorParsing), .ok ([57, 57] ++ ErrorParsing ++ ErrorParsing)] := by
+  refine ⟨fun s l h => by simp [toyLib] at h, ?_⟩
+  simp [runEvents, constStage_step, constStage_probe, stepList, timeStep, toyLib, TimeLib.parseOr, TimeSt.fresh]
+
+/-- **The boundary (known finding `fold-lenient`).**  A library whose parser is more lenient than its detector – as the
+    real one is: `dateparse.ParseFormat` rejects `"oct 7,  1970"` (two spaces) while `time.Parse` with the layout of
+    `"oct 7, 1970"` accepts it.  The constant array `[" 7", "7"]`: static analysis (and the first line) cannot detect
+    the first value and folds `<PARSE-ERROR>7` for every line; without optimisation the second line parses it by the
+    layout the second value left behind.  Optimised ≠ unoptimised from the second line on. -/
+theorem time_cache_fold_const_array_counterexample :
+    lenientLib.detect [32, 55] = none ∧ lenientLib.parse 1 [32, 55] = some [55] ∧
+    runReal (optimizeS (constStage lenientLib [[32, 55], [55]]) TimeSt.fresh)
+        ((constStage lenientLib [[32, 55], [55]]).probeStep TimeSt.fresh).2 [toyCtx [1], toyCtx [2]]
+      = [.ok (ErrorParsing ++ [55]), .ok (ErrorParsing ++ [55])] ∧
+    runReal (constStage lenientLib [[32, 55], [55]]) TimeSt.fresh [toyCtx [1], toyCtx [2]]
+      = [.ok (ErrorParsing ++ [55]), .ok [55, 55]] := by
+  refine ⟨by decide, by decide, ?_, ?_⟩ <;>
+  simp only [runReal, List.map_cons, List.map_nil, runEvents, constStage_step, constStage_probe, optimizeS] <;>
+  simp [stepList, timeStep, lenientLib, TimeLib.parseOr, TimeSt.fresh, SComp.step, Comp.run]
 
 /-! ## The code the theorems above rest on, regenerated from /repo (round 4b) -/
 
